@@ -1225,7 +1225,7 @@ fn child_case<V: Variant>(case: &Case, max_cuts: u64, seed: u64, only: Option<(u
             let commit_after = rng.chance(1, 2);
             one(t, &Fault::Cut { i, hold: false, commit_after, requery: false, waiters: false }, Some(&label), &mut skipping);
             // the same cut with other callers in flight that are parked on the entries the target owns at the cut
-            // (quick tier: at every second of the selected cut points, alternating with the target)
+            // (quick tier: at every third of the selected cut points, shifted with the target)
             if let Op::Round(_) = &case.ops[t] { if (ci as u64 + t as u64) % waiters_every == 0 { one(t, &Fault::Cut { i, hold: false, commit_after: true, requery: false, waiters: true }, Some(&label), &mut skipping); } }
             // the adversarial twin: a guarded continuation stays suspended (it is a spawned task that has not been
             // scheduled yet) while the caller goes on: across the next committed session (round target), or across
@@ -1387,7 +1387,8 @@ fn parent(a: Args) {
         } }
         for i in 0..n_cases { cases.push((format!("gen{i}"), gen_case(&mut rng, i), None)); }
         // one case of the "executor drops one of its own reads" family per three generated ones
-        for i in 0..(n_cases + 2) / 3 { cases.push((format!("spec{i}"), gen_spec_case(&mut rng, i), None)); }
+        let n_spec: u64 = flag("--spec-cases").map(|x| x.parse().unwrap()).unwrap_or((n_cases + 2) / 3);
+        for i in 0..n_spec { cases.push((format!("spec{i}"), gen_spec_case(&mut rng, i), None)); }
     }
     let mut failures: Vec<Failure> = vec![];
     let mut distinct: BTreeSet<u64> = BTreeSet::new();
@@ -1413,7 +1414,7 @@ fn parent(a: Args) {
             let mut resume: Option<String> = None;
             let mut restarts = 0;
             loop {
-            let (lines, died) = run_child(&exe, &cf, &v_use, max_cuts, a.seed.wrapping_add(ci as u64), fault_s.as_deref(), resume.as_deref(), if fault_s.is_some() { 1 } else { trace_every }, if hang_failures >= 4 { 1 } else { 3 }, if quick { 2 } else { 1 }, Duration::from_secs(if quick { 240 } else { 900 }));
+            let (lines, died) = run_child(&exe, &cf, &v_use, max_cuts, a.seed.wrapping_add(ci as u64), fault_s.as_deref(), resume.as_deref(), if fault_s.is_some() { 1 } else { trace_every }, if hang_failures >= 4 { 1 } else { 3 }, if quick { 3 } else { 1 }, Duration::from_secs(if quick { 240 } else { 900 }));
             let mut last_p = String::new();
             let mut last_label = String::new();
             let mut last_run = String::new();
